@@ -219,6 +219,7 @@ func c19Unit(c *RunCtx, unit int) {
 	cfg := world.Cfg{Modules: shuffled(r, mods), Mount: pickS(r, "/auth", ""), JSON: r.Intn(2) == 0, Err500: r.Intn(2) == 0, ProfileKeys: []string{"name"},
 		PreserveFields: [][]string{nil, {"name", "email"}, {"zip", "name", "email", "city"}}[r.Intn(3)], Localizer: []string{"", "empty", "partial"}[r.Intn(3)], NilSessionState: r.Intn(3) == 0}
 	cfg.AppendedRules = unit%2 == 1 // the application appended rules of its own to the shipped rulesets
+	cfg.SeparateEmail = unit%3 == 2 // a username site: a new account has no e-mail address of its own yet
 	regWL := []string{"email", "password"}
 	switch r.Intn(4) {
 	case 3:
@@ -388,7 +389,11 @@ func c19Unit(c *RunCtx, unit int) {
 			fail("attacker-controlled-field-stored", "the new record carries fields beyond pid/password/profile: %v", u.Fields())
 			return
 		}
-		if u.Email != ePid || u.Confirmed {
+		wantEmail := ePid
+		if cfg.SeparateEmail {
+			wantEmail = "" // a username site: the address is a profile field, filled in later
+		}
+		if u.Email != wantEmail || u.Confirmed {
 			fail("new-account-email-or-confirmed-wrong", "new account email=%q confirmed=%v", u.Email, u.Confirmed)
 			return
 		}
@@ -408,8 +413,8 @@ func c19Unit(c *RunCtx, unit int) {
 				fail("logged-in-despite-confirmation", "registration with e-mail confirmation in force changed the session user to %q", uidAfter)
 				return
 			}
-			if len(rec.Mails) != 1 || len(rec.Mails[0].Email.To) != 1 || rec.Mails[0].Email.To[0] != ePid {
-				fail("confirmation-mail-wrong", "expected exactly one confirmation mail to %q, got %d mails", ePid, len(rec.Mails))
+			if len(rec.Mails) != 1 || len(rec.Mails[0].Email.To) != 1 || rec.Mails[0].Email.To[0] != wantEmail {
+				fail("confirmation-mail-wrong", "expected exactly one confirmation mail to %q, got %d mails", wantEmail, len(rec.Mails))
 				return
 			}
 			if u.ConfirmSelector == "" {
@@ -433,7 +438,7 @@ func c19Unit(c *RunCtx, unit int) {
 func init() {
 	register(&Check{
 		ID: "C19", Level: "exploration",
-		Rule:  "per unit 40 POST /register requests through the real stack with field maps containing duplicates (form: first wins, JSON: last wins), missing fields, mismatched/absent confirm field, hostile extra fields (confirmed, locked, oauth2_uid, Password, totp_secret_key, name, role, ...), identifiers that exist / are blank / malformed, passwords on both sides of every default minimum and of bcrypt's 72-byte limit; register whitelists with 0-2 extra application fields; with and without the confirm module; form and JSON; registering browser anonymous or logged in. Oracle from the statement: refused (invalid by an independent evaluator / existing id / unhashable) => storage byte-identical and session user unchanged; else exactly one record whose password bcrypt-verifies the submitted one, PutArbitrary saw only whitelisted keys, every other stored field is at its zero value, logged in iff confirm is not loaded, else exactly one confirmation mail to that address. Plus a differential sweep of defaults.Rules.IsValid/Errors against an independent evaluator over generated rule settings x generated ASCII strings incl. strings exactly at / one below / one beyond the minima. distinct_nontrivial = distinct request signatures + policy signatures.",
+		Rule:  "per unit 40 POST /register requests through the real stack with field maps containing duplicates (form: first wins, JSON: last wins), missing fields, mismatched/absent confirm field, hostile extra fields (confirmed, locked, oauth2_uid, Password, totp_secret_key, name, role, ...), identifiers that exist / are blank / malformed, passwords on both sides of every default minimum and of bcrypt's 72-byte limit; register whitelists with 0-2 extra application fields; with and without the confirm module; form and JSON; registering browser anonymous or logged in. Oracle from the statement: refused (invalid by an independent evaluator / existing id / unhashable) => storage byte-identical and session user unchanged; else exactly one record whose password bcrypt-verifies the submitted one, PutArbitrary saw only whitelisted keys, every other stored field is at its zero value, logged in iff confirm is not loaded, else exactly one confirmation mail to that address. Plus a differential sweep of defaults.Rules.IsValid/Errors against an independent evaluator over generated rule settings x generated ASCII strings incl. strings exactly at / one below / one beyond the minima. In a third of the units the user type keeps its e-mail address apart from the primary identifier (a username site: new accounts have none yet); in half, the application appended rules of its own to the shipped rulesets. distinct_nontrivial = distinct request signatures + policy signatures.",
 		Units: func(t string) int { return tierN(t, 64, 3000) },
 		Run:   c19Unit,
 		Floors: func(t string) map[string]int {
